@@ -42,9 +42,9 @@ build_alpha(int thorough) {
   /* replay(i): 0 = the most recent delivery, 1 = the one before, 2 = the delivery with the highest PIV, 3 = the first */
   for (int i = 0; i < 4; i++)
     ALPHA[nalpha++] = (struct op){K_REPLAY, i};
-  /* forge(p): 0 -> PIV 0, 1 -> PIV 1, 2 -> highest PIV so far, 3 -> highest+1, 4 -> highest+70 */
-  for (int i = 0; i < 5; i++)
-    ALPHA[nalpha++] = (struct op){K_FORGE, i};
+  /* forge(p): 0 -> PIV 0, 1 -> PIV 1, 2 -> highest PIV so far, 3 -> highest+1, 4 -> highest+70, 5 -> forged response */
+  for (int i = 0; i < 6; i++)
+    ALPHA[nalpha++] = (struct op){K_FORGE, i}; /* 5: a forged RESPONSE (no Partial IV) to a request this node sent on the same context */
 }
 static const char *
 opname(struct op o, char *b, size_t n) {
@@ -66,6 +66,7 @@ static coap_context_t *sctx;
 static coap_address_t srv, cli;
 static refoscore_ctx_t rc;
 static int handler_calls;
+static coap_session_t *last_session; /* the server-side session of the peer (valid while the context lives) */
 static uint8_t last_reply[256];
 static size_t last_reply_len;
 static uint16_t next_mid;
@@ -73,12 +74,22 @@ static uint16_t next_mid;
 static void
 hnd(coap_resource_t *r, coap_session_t *s, const coap_pdu_t *req, const coap_string_t *q, coap_pdu_t *resp) {
   (void)r;
-  (void)s;
   (void)req;
   (void)q;
   handler_calls++;
+  last_session = s;
   coap_pdu_set_code(resp, COAP_RESPONSE_CODE_CONTENT);
   coap_add_data(resp, 2, (const uint8_t *)"ok");
+}
+static int resp_handler_calls;
+static coap_response_t
+resp_hnd(coap_session_t *s, const coap_pdu_t *sent, const coap_pdu_t *rcv, const coap_mid_t mid) {
+  (void)s;
+  (void)sent;
+  (void)rcv;
+  (void)mid;
+  resp_handler_calls++;
+  return COAP_RESPONSE_OK;
 }
 static void
 on_send(const ns_dgram_t *d) {
@@ -108,6 +119,9 @@ server_start(const struct rcfg *c) {
   ns_addr(&srv, 1, 5683);
   ns_addr(&cli, 40, 5000);
   coap_new_endpoint(sctx, &srv, COAP_PROTO_UDP);
+  coap_register_response_handler(sctx, resp_hnd);
+  last_session = NULL;
+  resp_handler_calls = 0;
   coap_resource_t *r = coap_resource_init(coap_make_str_const("t"), COAP_RESOURCE_FLAGS_OSCORE_ONLY);
   coap_register_request_handler(r, COAP_REQUEST_GET, hnd);
   coap_add_resource(sctx, r);
@@ -316,6 +330,31 @@ run_history(const struct rcfg *c, const struct op *ops, int n, int *acc, struct 
       break;
     }
     case K_FORGE:
+      if (o.arg == 5) {
+        /* the node under test also acts as client on the same security context: it sends a request on the peer's session,
+         * and a forged response (right token, empty OSCORE option = no Partial IV, arbitrary ciphertext) comes back */
+        if (!last_session)
+          return 0;
+        coap_pdu_t *rq = coap_new_pdu(COAP_MESSAGE_NON, COAP_REQUEST_CODE_GET, last_session);
+        uint8_t tk = (uint8_t)(0x90 + i);
+        if (!rq)
+          return 0;
+        coap_add_token(rq, 1, &tk);
+        coap_add_option(rq, COAP_OPTION_URI_PATH, 1, (const uint8_t *)"x");
+        if (coap_send(last_session, rq) == COAP_INVALID_MID)
+          return 0;
+        ns_prepare_all();
+        while (ns_inflight_count())
+          ns_drop(0);
+        uint8_t fr[] = {0x51, 0x44, 0x77, (uint8_t)i, tk, 0x90, 0xFF, 1, 2, 3, 4, 5, 6, 7, 8, 9, 10, 11, 12};
+        memcpy(b, fr, sizeof fr);
+        l = sizeof fr;
+        int rb = resp_handler_calls;
+        p = 0xFFFFFFFFull;
+        forged = 2;
+        (void)rb;
+        break;
+      }
       p = o.arg == 0 ? 0 : o.arg == 1 ? 1 : o.arg == 2 ? H->maxpiv : o.arg == 3 ? H->maxpiv + 1 : H->maxpiv + 70;
       l = make_request(p, NULL, 0, 1, b, sizeof b, NULL);
       forged = 1;
@@ -323,7 +362,10 @@ run_history(const struct rcfg *c, const struct op *ops, int n, int *acc, struct 
     }
     if (!l || H->n >= MAXH)
       return 0;
+    int rbefore = resp_handler_calls;
     int a = deliver(b, l);
+    if (forged == 2 && resp_handler_calls > rbefore)
+      a = 1;
     acc[i] = a;
     /* verdicts on this delivery */
     if (forged && a) {
@@ -640,7 +682,7 @@ main(int argc, char **argv) {
   vx_ev_int("sender_pivs_seen", (long long)vxp_counter(5));
   vx_ev_rule("recipient: all delivery histories of depth 1..3 (thorough 4) after one accepted message over {fresh(+gap in 1,2,3,[31],32,33,[63],64,65,"
              "[200]), late(-j) never delivered, replay of the last / previous / highest-PIV / first delivery, forgery claiming PIV 0, 1, highest, "
-             "highest+1, highest+70} x replay_window {32,63 at every depth; 2,1,3,33,64 at depth <= 2 (thorough: 2,1 also at depth 3; depth 4 with 32,63 and first PIV 0 only)} x Appendix B.1.2 {off,on} x first PIV {0,5} x (depth <= 2, windows 32 and 2) a forgery arriving before the first genuine message claiming the first PIV / first+70; messages manufactured by the "
+             "highest+1, highest+70, forged response without Partial IV to a request the node itself sent on the peer's session} x replay_window {32,63 at every depth; 2,1,3,33,64 at depth <= 2 (thorough: 2,1 also at depth 3; depth 4 with 32,63 and first PIV 0 only)} x Appendix B.1.2 {off,on} x first PIV {0,5} x (depth <= 2, windows 32 and 2) a forgery arriving before the first genuine message claiming the first PIV / first+70; messages manufactured by the "
              "reference implementation; sender: ssn_freq {1,2,3,5} x start {0,4} x crash point of life 1 (after 0..7 sends, inside the 1st/2nd "
              "save callback) x crash point of life 2, each life resuming from the last value the callback stored; distinct = distinct (history, verdict vector)");
   vx_ev_assumption("accept = the application's request handler ran; the reference implementation (validated on the RFC 8613 Appendix C vectors and against libcoap in C14) produces the datagrams");
